@@ -67,17 +67,24 @@ fn build_workload(args: &Args) -> Vec<Item> {
         } else {
             // decode: frames from the reference compressor (with and without checksum) and from ruzstd, valid and damaged
             let checksum = r.chance(1, 2);
-            let mut frame = if r.chance(1, 4) {
+            let wrap_directed = i % 16 == 1;
+            let data = if wrap_directed { wl::gen(&mut r, shape, 250_000 + len) } else { data };
+            let len = data.len();
+            let mut frame = if wrap_directed {
+                refz::compress(&data, *r.pick(&[1i32, 3]), &[refz::CP::ChecksumFlag(checksum), refz::CP::WindowLog(r.usize(10, 14) as u32)], None).expect("reference compression")
+            } else if r.chance(1, 4) {
                 ruzstd::encoding::compress_to_vec(&data[..], if r.chance(1, 2) { ruzstd::encoding::CompressionLevel::Fastest } else { ruzstd::encoding::CompressionLevel::Uncompressed })
             } else {
                 let level = *r.pick(&[-3i32, 1, 3, 6, 12, 19]);
                 let wlog = r.usize(10, 20) as u32;
                 refz::compress(&data, level, &[refz::CP::ChecksumFlag(checksum), refz::CP::WindowLog(wlog), refz::CP::ContentSizeFlag(r.chance(1, 2))], None).expect("reference compression")
             };
-            if r.chance(1, 4) {
+            if r.chance(1, 4) && !wrap_directed {
                 frame = mutate(&mut r, &frame);
             }
-            let front = *r.pick(&["stream", "stream", "stream_take", "stream_exact", "blocks", "blocks", "fromto", "fromto"]);
+            let front = if wrap_directed { "collect" } else { "" };
+            let front_random = *r.pick(&["stream", "stream", "stream_take", "stream_exact", "blocks", "blocks", "fromto", "fromto", "collect", "collect", "all", "all_vec"]);
+            let front = if front.is_empty() { front_random } else { front };
             let small = frame.len() <= 3000;
             let chunk = if small { *r.pick(&[1usize, 2, 5, 64, 1 << 30]) } else { *r.pick(&[511usize, 4096, 1 << 30]) };
             let mut line = String::new();
